@@ -653,6 +653,22 @@ def _wakeups(chk, repo):
             ok = ok and good
     chk.ob("TIMEOUT-5", "every timed-out ball is removed from the expected balls and reported lost, unconditionally", ok, f.where(), construct=f.ident,
            text="timed-out balls handled")
+    # a lost ball is replaced whenever the path does not end at the missing-ball target and still holds a ball to hand out: the replacement
+    # request (request_ball / eject) depends on the outcomes of cancel_path_if_target_is (False) and find_available_ball_in_path (True) and on
+    # nothing else - in particular not on the device's own claim count (a pass-through hop of a longer path has none)
+    for nm_, req_ in (("lost_incoming_ball", "request_ball"), ("lost_ejected_ball", "eject")):
+        lf_ = repo.func(BD, "BallDevice." + nm_)
+        chk.analysed(lf_)
+        lcf = lf_.cfg()
+        reqs = [n_ for n_, c_ in lcf.calls_named(req_)]
+        ok_ = len(reqs) == 1
+        g_ = {}
+        if ok_:
+            g_ = {k: v for k, v in lcf.guards_at(reqs[0].id).items() if isinstance(v, bool) and "is_playfield" not in k}
+            ok_ = sorted((k.split("(")[0].split(".")[-1], v) for k, v in g_.items()) == [("cancel_path_if_target_is", False), ("find_available_ball_in_path", True)]
+        chk.ob("RESOLVE-1", "BallDevice.%s asks for a replacement exactly when the path was not cancelled and a ball is available in the path "
+               "(no further condition)" % nm_, ok_, lf_.where(reqs[0].ast if reqs else None), detail="requested under %s" % sorted(g_.items()),
+               construct=lf_.ident, text="replacement request condition in " + nm_)
     if lost:
         sv = kwarg(lost[0][1], "source")
         chk.ob("TIMEOUT-5", "the loss is reported with the ball's own source", sv is not None and src(sv).endswith(".source"), f.where(lost[0][1]), construct=f.ident,
@@ -827,6 +843,7 @@ def battery():
         M("multiball sizes the lock release by the physical count", "mpf/devices/multiball.py", "min(device.available_balls, self.balls_added_live - balls_added)", "min(device.balls, self.balls_added_live - balls_added)", "FLOW-5c"),
         M("path search result dropped", "mpf/devices/ball_device/outgoing_balls_handler.py", "            return self._current_target.find_available_ball_in_path(start)", "            self._current_target.find_available_ball_in_path(start)", "DISCARD-1"),
         M("unknown balls: target keeps waiting for the ball", OB, "            self.info_log(\"Got unknown balls. Assuming a ball returned.\")\n            incoming_ball_at_target.did_not_arrive()\n", "            self.info_log(\"Got unknown balls. Assuming a ball returned.\")\n", "RESOLVE-1"),
+        M("pass-through hop does not replace a lost incoming ball", BD, "        elif self.find_available_ball_in_path(self):\n            self.warning_log(\"Path is not going to ball_missing_target %s. Restoring path by requesting a new ball.\",", "        elif self.available_balls > 0 and self.find_available_ball_in_path(self):\n            self.warning_log(\"Path is not going to ball_missing_target %s. Restoring path by requesting a new ball.\",", "RESOLVE-1"),
         M("missing ball never declared lost", OB, "            await self.ball_device.lost_ejected_ball(target=eject_request.target)\n", "", "RESOLVE-1"),
         M("lost ball reported without retry", OB, "            await self._failed_eject(eject_request, eject_try, True)\n            await self.ball_device.lost_ejected_ball", "            await self._failed_eject(eject_request, eject_try, False)\n            await self.ball_device.lost_ejected_ball", "RESOLVE-1"),
         M("returned ball still counted as left", OB, "            eject_request.already_left = False\n            incoming_ball_at_target.did_not_arrive()", "            incoming_ball_at_target.did_not_arrive()", "RESOLVE-1"),
